@@ -139,6 +139,14 @@ def run(e: Engine, rep: Report):
              'judged by its tail: the tail alone is not the marker, or '
              'worse, it is although the line is not)')
     r518(e, rep)
+    rep.rule('R5.19', 'what a generator of the sender needs it is given: a '
+             'generator method of DataSender reads no attribute that the '
+             'method which creates it (without consuming it on the spot) '
+             'also assigns - the body of a generator runs when it is '
+             'iterated, so every part is stuffed with the value the '
+             'attribute has after the last part was looked at, not the '
+             'value that held for its own part')
+    r519(e, rep)
     rep.floor('R5.1', 2, 'sentinel tests and rewrite sites')
     rep.floor('R5.3', 5, 'hand-over obligations')
 
@@ -1198,3 +1206,80 @@ def r518(e: Engine, rep: Report):
         rep.ok('R5.18', 'slimta.smtp.datareader', 'the end marker is not '
                'matched on a local below add_lines',
                reason='R5.11 reads the other shapes', nontrivial=False)
+
+
+# ------------------------------------------------------------------ R5.19
+def r519(e: Engine, rep: Report):
+    n = 0
+    for cq, c in sorted(e.p.classes.items()):
+        if c.module.name != 'slimta.smtp.datasender':
+            continue
+        gens = {}
+        for nm, m in c.methods.items():
+            if any(isinstance(x, (ast.Yield, ast.YieldFrom))
+                   for x in walk_own(m.node)):
+                gens[nm] = {x.attr for x in walk_own(m.node)
+                            if isinstance(x, ast.Attribute) and
+                            isinstance(x.value, ast.Name) and
+                            x.value.id == 'self' and
+                            isinstance(x.ctx, ast.Load)}
+        for nm, m in sorted(c.methods.items()):
+            made = [x for x in walk_own(m.node) if isinstance(x, ast.Call)
+                    and isinstance(x.func, ast.Attribute) and
+                    isinstance(x.func.value, ast.Name) and
+                    x.func.value.id == 'self' and x.func.attr in gens]
+            if not made:
+                continue
+            # consumed on the spot: iterated by a for / yield from / list()
+            eager = set()
+            for x in walk_own(m.node):
+                if isinstance(x, ast.For) and x.iter in made:
+                    eager.add(id(x.iter))
+                if isinstance(x, ast.YieldFrom) and x.value in made:
+                    eager.add(id(x.value))
+                if isinstance(x, ast.Call) and isinstance(x.func, ast.Name) \
+                        and x.func.id in ('list', 'tuple', 'sum', 'bytes') \
+                        and x.args and x.args[0] in made:
+                    eager.add(id(x.args[0]))
+                if isinstance(x, ast.Call) and \
+                        isinstance(x.func, ast.Attribute) and \
+                        x.func.attr == 'join' and x.args and \
+                        x.args[0] in made:
+                    eager.add(id(x.args[0]))
+            wrote = {}
+            for x in walk_own(m.node):
+                tg = x.targets if isinstance(x, ast.Assign) else (
+                    [x.target] if isinstance(x, (ast.AugAssign,
+                                                 ast.AnnAssign)) else [])
+                for t in tg:
+                    if isinstance(t, ast.Attribute) and \
+                            isinstance(t.value, ast.Name) and \
+                            t.value.id == 'self':
+                        wrote.setdefault(t.attr, x)
+            for call in made:
+                if id(call) in eager:
+                    continue
+                n += 1
+                rep.evaluations += 1
+                rep.functions.add(m.qname)
+                both = sorted(gens[call.func.attr] & set(wrote))
+                rep.check(not both, 'R5.19', m.qname,
+                          '`%s` is given what it needs'
+                          % ' '.join(ast.unparse(call).split())[:40],
+                          '%s creates the generator `%s` and assigns '
+                          'self.%s (`%s`), which the generator reads: its '
+                          'body runs only when the chain is iterated, after '
+                          '%s has finished - every part sees the last value '
+                          'written, so the leading dot of a part is stuffed '
+                          '(or not) by where the LAST part left off: a dot '
+                          'line at a part boundary goes out unstuffed and '
+                          'ends the message early' % (
+                              nm, call.func.attr, both[0] if both else '',
+                              ' '.join(ast.unparse(wrote[both[0]]).split(
+                                  ))[:40] if both else '', nm),
+                          loc=m.loc(call), reason='no attribute both read '
+                          'by the generator and assigned by its creator')
+    if n < 1:
+        rep.ok('R5.19', 'slimta.smtp.datasender', 'no generator of the '
+               'sender is created for later consumption',
+               reason='nothing runs late', nontrivial=False)
